@@ -46,11 +46,23 @@ pub(crate) fn call(builtin: Builtin, args: &[Object], gc: &mut GC) -> Result<Obj
 fn call_print(args: &[Object]) -> Result<Object, Error> {
     if !args.is_empty() {
         let mut args = args.iter();
-        let mut format_str = args.next().unwrap().to_string();
+        let format = args.next().unwrap().to_string();
 
-        for replacement in args {
-            format_str = format_str.replacen("{}", &replacement.to_string(), 1);
+        // Replace every {} with the next argument, in a single pass over the format
+        // (so that a {} inside an argument is never taken for a placeholder)
+        let mut format_str = String::with_capacity(format.len());
+        let mut rest = format.as_str();
+        while let Some(pos) = rest.find("{}") {
+            match args.next() {
+                Some(replacement) => {
+                    format_str.push_str(&rest[..pos]);
+                    format_str.push_str(&replacement.to_string());
+                    rest = &rest[pos + 2..];
+                }
+                None => break,
+            }
         }
+        format_str.push_str(rest);
 
         #[cfg(feature = "verif")]
         if crate::verif::capture_line(&format_str) {
